@@ -59,6 +59,9 @@ TableVerdict(e) ==
   ELSE "ok"
 \* conformance with the 1-d model
 ModelChunks(d) == IF d.kind = "reg" THEN <<RegChunks(d.base[1], d.tile[1]), RegChunks(d.base[2], d.tile[2])>> ELSE <<d.cy, d.cx>>
+\* clip(selection of tiles) = crop to the bounding block of the selection (per-axis min / max of the indices, whatever the
+\* order or shape of the selection), with the selected indices re-based to the block's corner
+BlockOf(sel) == <<SetMin({s[1] : s \in sel}), SetMax({s[1] : s \in sel}) + 1, SetMin({s[2] : s \in sel}), SetMax({s[2] : s \in sel}) + 1>>
 RECURSIVE CropChunks(_, _)
 CropChunks(ch, crops) == IF crops = <<>> THEN ch
                          ELSE CropChunks(<<SubSeq(ch[1], Head(crops)[1] + 1, Head(crops)[2]), SubSeq(ch[2], Head(crops)[3] + 1, Head(crops)[4])>>, Tail(crops))
